@@ -127,7 +127,11 @@ def einsum_cases(tier):
                 for outs in itertools.combinations(used, r):
                     eq = ",".join(ins) + "->" + "".join(outs)
                     for backend in ("numpy", "funsor.einsum.numpy_log", "funsor.einsum.numpy_map"):
-                        out.append([eq, backend])
+                        out.append([eq, backend, "generic"])
+                    if n >= 2 and len(outs) <= 1:
+                        # log-weights far from 0: products below the range where exp() underflows
+                        for backend in ("funsor.einsum.numpy_log", "funsor.einsum.numpy_map"):
+                            out.append([eq, backend, "deep"])
     return out
 
 
@@ -144,7 +148,7 @@ def bounds(tier):
 def describe(case):
     if case[0] == "expr":
         return lang.code(lang.tuplify(case[1]))
-    return "einsum %s %s" % (case[1], case[2])
+    return "einsum %s" % (case[1:],)
 
 
 def _features(e, route, what):
@@ -230,14 +234,14 @@ def check_expr(e, seed):
     return core.ok(key, True, "ok:%s" % lang.head(e), transitions=n_ok, counters=counters)
 
 
-def check_einsum(eq, backend, seed):
+def check_einsum(eq, backend, seed, fill="generic"):
     import numpy as np
     from collections import OrderedDict
     from funsor.domains import Bint
     from funsor.einsum import einsum, naive_contract_einsum, naive_einsum
     from funsor.tensor import Tensor
 
-    key = "einsum:%s:%s" % (eq, backend)
+    key = "einsum:%s:%s:%s" % (eq, backend, fill)
     sizes = {"a": 2, "b": 3, "c": 2, "d": 1}
     ins, outs = eq.split("->")
     ins = ins.split(",")
@@ -249,6 +253,8 @@ def check_einsum(eq, backend, seed):
     plus, times = {"numpy": ("add", "mul"), "funsor.einsum.numpy_log": ("logaddexp", "add"), "funsor.einsum.numpy_map": ("max", "add")}[backend]
     if plus != "add":
         arrays = [np.log(a) for a in arrays]
+    if fill == "deep":
+        arrays = [a * 20.0 - 400.0 for a in arrays]
     # brute-force reference over all symbol assignments
     used = sorted(set("".join(ins)))
     red = [ch for ch in used if ch not in outs]
@@ -279,7 +285,7 @@ def check_einsum(eq, backend, seed):
             continue
         extra = [n for n in r.inputs if n not in outs]
         if extra:
-            return core.violation(key, "einsum:" + name, "%s(%r) has inputs %s not in the output" % (name, eq, extra), ["einsum", eq, backend], {"entry": name, "backend": backend, "what": "extra-input"})
+            return core.violation(key, "einsum:" + name, "%s(%r) has inputs %s not in the output" % (name, eq, extra), ["einsum", eq, backend, fill], {"entry": name, "backend": backend, "what": "extra-input"})
         for ov, want in ref.items():
             rho = dict(zip(outs, ov))
             try:
@@ -290,7 +296,7 @@ def check_einsum(eq, backend, seed):
             if not observe.values_equal(got, want, "real"):
                 return core.violation(
                     key, "einsum:" + name, "%s(%r, backend=%s) at %s: funsor %s, brute force %s" % (name, eq, backend, rho, np.asarray(got).tolist(), float(want)),
-                    ["einsum", eq, backend], {"entry": name, "backend": backend, "what": "value", "has_repeated_operand_symbols": any(len(set(s)) != len(s) for s in ins),
+                    ["einsum", eq, backend, fill], {"entry": name, "backend": backend, "what": "value", "fill": fill, "has_repeated_operand_symbols": any(len(set(s)) != len(s) for s in ins),
                                               "reduced_symbol_count": len(red)},
                 )
         else:
@@ -303,4 +309,4 @@ def check_einsum(eq, backend, seed):
 def check(case, seed):
     if case[0] == "expr":
         return check_expr(lang.tuplify(case[1]), seed)
-    return check_einsum(case[1], case[2], seed)
+    return check_einsum(case[1], case[2], seed, case[3] if len(case) > 3 else "generic")
